@@ -186,11 +186,28 @@ def check_case(case):
                 payload = dict(case["doc"], extensions={"extension-definition--3f2504e0-4f89-41d3-9a0c-0305e82c3301": {"extension_type": "property-extension", "deep": junk}})
             else:
                 payload = dict(case["doc"], **{where: junk})
+        import stix2
+        fn = stix2.parse
+        if where == "bundle-in-bundle":
+            # bundles inside bundles: the spec-version detection recurses over members before anything is cleaned
+            inner_b = {"type": "bundle", "id": "bundle--3f2504e0-4f89-41d3-9a0c-0305e82c3301", "objects": [dict(case["doc"])]}
+            for _ in range(n):
+                inner_b = {"type": "bundle", "id": "bundle--3f2504e0-4f89-41d3-9a0c-0305e82c3301", "objects": [inner_b]}
+            payload = json.dumps(inner_b) if as_text and n <= 900 else inner_b
+        elif where == "selector-walk":
+            # a granular-marking selector is resolved by walking the whole object, deep custom content included
+            junk = make_junk({"$nest": n, "kind": kind})
+            payload = dict(case["doc"], x_deep=junk, x_zzz=1, granular_markings=[{"marking_ref": "marking-definition--613f2e26-407d-48c7-9eca-b8e91df99dc9", "selectors": ["x_zzz"]}])
+            payload = json.dumps(payload) if as_text and n <= 900 else payload
+        elif where == "parse_observable":
+            junk = make_junk({"$nest": n, "kind": kind})
+            payload = {"type": "file", "name": "f", "x_deep": junk}
+            payload = json.dumps(payload) if as_text and n <= 900 else payload
+            fn = lambda p, allow_custom: stix2.parse_observable(p, allow_custom=allow_custom, version="2.1")  # noqa: E731
         desc = "nesting depth %d (%s) at %s as %s" % (n, kind, where, "text" if as_text else "dict")
         before = registry_snapshot()
-        import stix2
         try:
-            res, exc = with_watchdog(lambda: core.guarded(stix2.parse, payload, allow_custom=case["nest"]["allow_custom"]))
+            res, exc = with_watchdog(lambda: core.guarded(fn, payload, allow_custom=case["nest"]["allow_custom"]))
         except _Timeout:
             return [("no-termination-within-60s", desc)]
         # where the recursion limit is hit decides the root cause: json.loads on any deeply nested text, the document itself
@@ -490,7 +507,7 @@ def run(ctx):
         for kind in ("list", "dict"):
             for host, where in (("identity", "document"), ("identity", "labels"), ("identity", "extensions"), ("identity", "x_custom"), ("identity", "ext-content"),
                                 ("file-no-id", "ext-content"), ("network-traffic-no-id", "ext-content"), ("file-with-id", "ext-content"), ("file-no-id", "hashes"),
-                                ("network-traffic-no-id", "ipfix")):
+                                ("network-traffic-no-id", "ipfix"), ("identity", "bundle-in-bundle"), ("identity", "selector-walk"), ("identity", "parse_observable")):
                 for as_text in (False, True):
                     for allow in (False, True):
                         if depth == 20000 and as_text:
